@@ -253,7 +253,12 @@ func IsPermanentError(err error) bool {
 		return false
 	}
 
-	if _, ok := err.(*TimeoutError); ok {
+	// A TimeoutError stays a time-out when it is wrapped (%w, errors.Join, the
+	// library's own error types) and whatever the name of the operation that
+	// timed out contains: look for it in the chain instead of matching the
+	// text of the outermost error against the permanent patterns.
+	var timeoutErr *TimeoutError
+	if errors.As(err, &timeoutErr) {
 		return false
 	}
 	if errors.Is(err, context.DeadlineExceeded) {
@@ -329,7 +334,8 @@ func IsTransientError(err error) bool {
 		return true
 	}
 
-	if _, ok := err.(*TimeoutError); ok {
+	var timeoutErr *TimeoutError
+	if errors.As(err, &timeoutErr) {
 		return true
 	}
 
